@@ -387,7 +387,7 @@ class Machine:
             return out
         if i.mode == 'jmp': self._goto(s, i.expr, True); return [s]
         if i.mode == 'jsr':
-            s.rs.append(nxt); s.S = (s.S - 2) & 0xff; s.back += 1; s.pc = i.expr; return [s]
+            s.rs.append(nxt); s.S = (s.S - 2) & 0xff; s.pc = i.expr; return [s]
         if mn == 'RTS':
             if not s.rs:
                 s.done = True; s.ret_a = s.A; return [s]
